@@ -105,7 +105,6 @@ impl Decode for () {
     open spec fn need_depth(b: Seq<u8>) -> nat { 0 }
     proof fn law_bound(b: Seq<u8>) {}
     //@fn unit.decode :: codec | impl Decode for () | decode
-    //@ sub `_: &mut I` `_input: &mut I` R2
     //@ at start
     //@+ proof { broadcast use sl::concat_empty_l; }
 }
